@@ -15,6 +15,7 @@ import random
 import sys
 
 COUNTER = 0
+R = random.Random(1)
 
 
 def p_print():
@@ -50,6 +51,19 @@ def p_draw():
     if random.random() < 0.5:
         return 6
     return 7
+
+
+def p_draw_inst():
+    if R.random() < 0.5:
+        return 10
+    return 11
+
+
+def p_log_hang():
+    logging.disable(logging.CRITICAL)
+    k = 0
+    while True:
+        k += 1
 
 
 def p_mutate_global():
@@ -123,7 +137,7 @@ def run_history(args) -> dict:
         sp = PRELOADED["sp"]
     else:
         sp, _ = pyn.load_sut(mod, wd)
-    executor = pyn.make_executor(sp, 5)
+    executor = pyn.make_executor(sp, 3)
     base = {"stdout": sys.stdout, "stderr": sys.stderr, "log": logging.root.manager.disable,
             "rng": randomness.RNG.getstate()}
     evs = []
@@ -134,7 +148,7 @@ def run_history(args) -> dict:
         st = _state(base)
         key = json.dumps([proj["timeout"], proj["lines"], proj["pred_true"], proj["pred_false"],
                           proj["exceptions"]], sort_keys=True)
-        ev = {"steps": list(steps), "res": key, "timeout": proj["timeout"],
+        ev = {"steps": list(steps), "res": key, "timeout": proj["timeout"] and "log_hang" not in steps,
               "hidden_state": "mutate_global" in steps, **st}
         evs.append(ev)
         # put the process back into a sane state for OUR bookkeeping only (not part of the verdict):
